@@ -314,6 +314,13 @@ ReadLands ==
 \* a drained subscription holds the canonical chain
 DrainConverges == \A r \in DOMAIN rd : Apply(rd[r].held, DrainOut(rd[r].pos, best)) = ChainSeq(best)
 
+\* Lookups are a function of the stored chain only: a step that stores nothing (a read, a new reader - and, in the
+\* implementation, a lookup itself) never changes the answer of any later lookup.  A cache of answers, negative ones
+\* included, must therefore be invalidated by every store; the design has none.
+LookupStable ==
+  [][UNCHANGED <<blocks, idx, txi, filter, txinfo>> =>
+       \A h \in Known : \A t \in DOMAIN txinfo : HasTx(h, t)' = HasTx(h, t) /\ TxMeta(h, t)' = TxMeta(h, t)]_vars
+
 (* C09: on chains all of whose blocks passed admission *)
 CleanHeads == {h \in CheckHeads : blocks[h].clean}
 NoDupOnChain == \A h \in CleanHeads : LET pos == PosOn(h) IN
